@@ -56,3 +56,27 @@ Definition decide (f : flags) : cverdict :=
   match fst (run main_steps f []) with Some r => CReject r | None => CAccept (mode_of f) end.
 
 Definition effects (f : flags) : list effect := snd (run main_steps f []).
+
+(* ---------- the values behind the switches ----------
+   main.go tests the VALUES: a string-valued flag counts when it is not the empty string, a date when it is
+   not 0, the positional file argument when it is there (len(args) == 1, also when it is ""), and
+   --redactFieldNames (a string array) when it was given at all (also with the value ""). *)
+Inductive sval := SAbsent | SEmpty | SGiven.            (* not on the command line / the empty string / a non-empty string *)
+Inductive dval := DAbsent | DZero | DNeg | DPos.        (* not on the command line / 0 / negative / positive *)
+
+Record raw := {
+  r_file : sval; r_stdin : bool; r_out : sval; r_encrypt : bool; r_regexp : sval; r_fieldnames : sval;
+  r_proj : sval; r_cluster : sval; r_pub : sval; r_priv : sval; r_start : dval; r_end : dval; r_env : bool }.
+
+Definition nonempty (v : sval) : bool := match v with SGiven => true | _ => false end.
+Definition present (v : sval) : bool := match v with SAbsent => false | _ => true end.
+Definition nonzero (v : dval) : bool := match v with DNeg | DPos => true | _ => false end.
+
+Definition abstract (r : raw) : flags :=
+  {| f_file := present (r_file r); f_stdin := r_stdin r; f_out := nonempty (r_out r); f_encrypt := r_encrypt r;
+     f_regexp := nonempty (r_regexp r); f_fieldnames := present (r_fieldnames r);
+     f_proj := nonempty (r_proj r); f_cluster := nonempty (r_cluster r); f_pub := nonempty (r_pub r); f_priv := nonempty (r_priv r);
+     f_start := nonzero (r_start r); f_end := nonzero (r_end r); f_env := r_env r |}.
+
+Definition decide_raw (r : raw) : cverdict := decide (abstract r).
+Definition effects_raw (r : raw) : list effect := effects (abstract r).
